@@ -1819,15 +1819,45 @@ pub fn random_op(r2: &R2, rng: &mut crate::util::Rng) -> AbsOp {
             o.path = if o.side_long { vec![m3, other] } else { vec![m3] };
         }
         11 => {
-            // withdraw from M1 / M2 with the long side swapped to C and / or the short side to A
+            // withdraw from M1 / M2 / M3 with output swap paths
             o.op = "withdraw_path".into();
-            o.m = if rng.chance(1, 2) { m1 } else { m2 };
-            let other = if o.m == m1 { m2 } else { m1 };
-            if rng.chance(1, 2) {
-                o.path = vec![other, m3];
-            }
-            if rng.chance(1, 2) {
-                o.path2 = vec![other];
+            match rng.below(4) {
+                0 => {
+                    // M1 / M2: the long side swapped to C and / or the short side to A
+                    o.m = if rng.chance(1, 2) { m1 } else { m2 };
+                    let other = if o.m == m1 { m2 } else { m1 };
+                    if rng.chance(1, 2) {
+                        o.path = vec![other, m3];
+                    }
+                    if rng.chance(1, 2) {
+                        o.path2 = vec![other];
+                    }
+                }
+                1 => {
+                    // two hops ending in a token of the FIRST market of the path, back in the current
+                    // market: long A -> B -> A, short B -> A -> B
+                    o.m = if rng.chance(1, 2) { m1 } else { m2 };
+                    let other = if o.m == m1 { m2 } else { m1 };
+                    if rng.chance(2, 3) {
+                        o.path = vec![other, o.m];
+                    }
+                    if rng.chance(2, 3) {
+                        o.path2 = vec![other, o.m];
+                    }
+                }
+                2 => {
+                    // M3 (C/B): the short side B -> A -> B through the two A/B markets
+                    o.m = m3;
+                    o.path2 = if rng.chance(1, 2) { vec![m1, m2] } else { vec![m2, m1] };
+                }
+                _ => {
+                    // M1 / M2: the long side A -> B -> C -> B ... three hops A -> B (other) -> C (M3)? no:
+                    // long A -> B (current) -> A (other): the current market first, another market last
+                    o.m = if rng.chance(1, 2) { m1 } else { m2 };
+                    let other = if o.m == m1 { m2 } else { m1 };
+                    o.path = vec![o.m, other];
+                    o.path2 = vec![o.m, other];
+                }
             }
         }
         12 => {
